@@ -125,11 +125,11 @@ contract(
         "endtime is None or (e2 == floor_to_ms(endtime) + timedelta(milliseconds=1) and endtime < e2)",
         # and the result is exactly what the storage's windowed read returns for that window
         "limit != 0 or len(result) == 0", "limit <= 0 or len(result) <= limit",
-        "all(result[j].id is not None and in_window(self.ds.storage_strategy, result[j].id, self.bucket_id, s2, e2)"
+        "all(result[j].id is not None and may_window(self.ds.storage_strategy, result[j].id, self.bucket_id, s2, e2)"
         "    and decodes(result[j], (result[j].id, ev_start(self.ds.storage_strategy, result[j].id), ev_end(self.ds.storage_strategy, result[j].id),"
         "                            ev_data(self.ds.storage_strategy, result[j].id))) for j in range(len(result)))",
         "all(before(self.ds.storage_strategy, result[j].id, result[j2].id) for j in range(len(result)) for j2 in range(j + 1, len(result)))",
-        "limit == 0 or all(not in_window(self.ds.storage_strategy, i, self.bucket_id, s2, e2)"
+        "limit == 0 or all(not must_window(self.ds.storage_strategy, i, self.bucket_id, s2, e2)"
         "    or any(result[j].id == i for j in range(len(result)))"
         "    or (limit > 0 and len(result) == limit and all(before(self.ds.storage_strategy, result[j].id, i) for j in range(len(result))))"
         "    for i in event_ids(self.ds.storage_strategy))",
